@@ -14,8 +14,8 @@ def keyf(f):
 for f in sorted(os.listdir(d), key=keyf):
     if f.endswith(".md"):
         t = open(os.path.join(d, f)).read().strip()
-        if f.startswith("ZZ-"):
-            tail = t
+        if f.startswith("ZZ"):
+            tail += ("\n\n---------------------------------------------------------------------------------------------\n\n" if tail else "") + t
             continue
         if not t.lstrip().startswith("#"):
             t = "### %s — as built\n\n%s" % (f[:-3], t)
